@@ -267,7 +267,7 @@ def shard_script_sampled(shard, seed, n):
 
 # ---------------------------------------------------------------- solver side
 
-SOLVER_LETTERS = ["A", "B", "N", "P0", "P1", "P2", "Q0", "Q1", "Q2", "R", "S", "SL", "SN", "I", "V", "U", "O"]
+SOLVER_LETTERS = ["A", "B", "N", "P0", "P1", "P2", "Q0", "Q1", "Q2", "R", "S", "SL", "SN", "I", "V", "U", "O", "IC", "VC"]
 
 
 def check_solver_sequence(run, seq):
@@ -294,7 +294,7 @@ def check_solver_sequence(run, seq):
         try:
             for i, l in enumerate(seq):
                 live = [f for fr in frames for f in fr]
-                if l in ("I", "V", "U") and i + 1 < len(seq):
+                if l in ("I", "V", "U", "IC", "VC") and i + 1 < len(seq):
                     oneshot_then_more = True
                 if l == "A":
                     s.add_assertion(fa)
@@ -331,6 +331,17 @@ def check_solver_sequence(run, seq):
                         r, want = s.is_valid(q), not sat(live + [m.Not(q)])
                     else:
                         r, want = s.is_unsat(q), not sat(live + [q])
+                    if r != want:
+                        run.fail({"subcheck": "solver:verdict", "call": l}, case,
+                                 "step %d (%s) of %s returned %r, truth is %r" % (i, l, " ".join(seq), r, want))
+                        return
+                elif l in ("IC", "VC"):
+                    # one-shot queries on the Boolean constants (shortcuts inside the queries must not skip the
+                    # bookkeeping of the temporary level)
+                    if l == "IC":
+                        r, want = s.is_sat(m.FALSE()), False
+                    else:
+                        r, want = s.is_valid(m.TRUE()), True
                     if r != want:
                         run.fail({"subcheck": "solver:verdict", "call": l}, case,
                                  "step %d (%s) of %s returned %r, truth is %r" % (i, l, " ".join(seq), r, want))
